@@ -56,7 +56,8 @@ EndOK(e) ==
      /\ e.end \in o.ends
      /\ e.total <= HiBytes(apps, 1)
      /\ (o.ends = {"eof"} /\ e.end = "eof") => e.total = SumNs(ns)
-     /\ (Len(wire) > 0 /\ \A i \in 1..Len(wire) : wire[i].auth /\ wire[i].seq = i) => e.total = SumNs(ns)   \* untouched wire: everything arrives
+     \* every application record is still in its place, untouched: everything written must arrive
+     /\ (Len(wire) >= Len(rs) /\ \A i \in 1..Len(rs) : wire[i].auth /\ wire[i].seq = i) => e.total = SumNs(ns)
 
 TraceNext ==
   /\ l <= Len(Trace)
